@@ -118,10 +118,16 @@ int ep_upk(ep_t r, const ep_t p) {
 					fp_neg(t, t);
 				}
 			}
-			fp_copy(r->x, p->x);
-			fp_copy(r->y, t);
-			fp_set_dig(r->z, 1);
-			r->coord = BASIC;
+			if (fp_is_zero(t) && fp_get_bit(p->y, 0) != 0) {
+				/* The point (x, 0) is its own negative, only the encoding
+				 * with a zero sign bit is canonical. */
+				result = 0;
+			} else {
+				fp_copy(r->x, p->x);
+				fp_copy(r->y, t);
+				fp_set_dig(r->z, 1);
+				r->coord = BASIC;
+			}
 		}
 	}
 	RLC_CATCH_ANY {
